@@ -5,6 +5,8 @@ a right shift or mask in limb arithmetic whose result is *identically zero* alth
 not a literal - a carry that can never be non-zero means the carry chain was cut (e.g. a limb masked
 to 44 bits before `>> 44` reads its carry)."""
 
+from .build import AnalysisBroken as AnalysisBrokenKB
+
 
 def _bits(ty):
     if ty.startswith("i") and ty[1:].isdigit():
@@ -276,3 +278,58 @@ def or_packing_rule(prog, chk, rule, unit_prefixes, floor=1):
                    detail="" if not ov else "both operands may have bits %s set: `(hi << k) | lo` drops a pending carry in lo that "
                    "`(hi << k) + lo` would propagate" % hex(ov), key="%s %s or-packing" % (rule, f.sname))
     chk.floor(rule, "shift-and-or limb / word packings examined", tot, floor)
+
+
+def reduced_limb_rule(prog, chk, rule, names, floor=1):
+    """radix-2^k limbs packed into the output bytes: every limb that is shifted / scaled into a stored byte of the output array
+    (parameter 0) is, except the most significant one, the remainder of its own carry step, x - ((x >> k) << k). A limb that
+    still holds an unpropagated carry (the last carry ripple cut short) overlaps its neighbour in the `(lo >> a) | (hi << b)`
+    packing and the encoded scalar is wrong for the rare values where that carry is non-zero."""
+    n = 0
+    for name in names:
+        f = prog.fn(name)
+        if f is None:
+            raise AnalysisBrokenKB("%s: %s not found" % (rule, name))
+        limbs = {}
+        for i, ins in enumerate(f.insts):
+            if ins["op"] != "store" or ins.get("size") != 1:
+                continue
+            a = ins["ops"][1]
+            if a[0] != "v" or f.insts[a[1]]["op"] != "getelementptr":
+                continue
+            g = f.insts[a[1]]
+            if g["ops"][0] != ["a", 0] or g.get("off") is None or g.get("var"):
+                continue
+            st, seen = [ins["ops"][0]], set()
+            while st:
+                o = st.pop()
+                if o[0] != "v" or o[1] in seen:
+                    continue
+                seen.add(o[1])
+                d = f.insts[o[1]]
+                if d["op"] in ("trunc", "or"):
+                    st.extend(d["ops"])
+                elif d["op"] in ("ashr", "lshr", "mul", "shl") and d["ops"][1][0] == "i" and d["ops"][0][0] == "v":
+                    limbs.setdefault(d["ops"][0][1], set()).add(g["off"])
+        if len(limbs) < 2:
+            continue
+        top = max(limbs, key=lambda v: max(limbs[v]))
+        for v in sorted(limbs, key=lambda v: min(limbs[v])):
+            if v == top:
+                continue
+            n += 1
+            d = f.insts[v]
+            ok = False
+            if d["op"] == "sub":
+                X, M = d["ops"]
+                m = f.insts[M[1]] if M[0] == "v" else None
+                if m is not None and m["op"] in ("mul", "shl") and m["ops"][0][0] == "v":
+                    c = f.insts[m["ops"][0][1]]
+                    ok = c["op"] in ("ashr", "lshr") and c["ops"][0] == X
+            elif d["op"] == "and" and any(o[0] == "i" for o in d["ops"]):
+                ok = True                  # masked limb
+            chk.ob(rule, f, "limb packed into bytes %d..%d of the output is the remainder of its own carry step" % (min(limbs[v]), max(limbs[v])),
+                   ok, loc=f.loc(v), detail="" if ok else "the limb is defined by `%s` at %s, not by x - ((x >> k) << k): a carry added into it after "
+                   "its own reduction is never propagated, the packing overlaps the next limb" % (d["op"], f.loc(v)),
+                   key="%s %s limb@%d" % (rule, name, min(limbs[v])))
+    chk.floor(rule, "limbs packed into scalar encodings", n, floor)
